@@ -582,19 +582,17 @@ macro_rules! is_it {
 macro_rules! is_itc {
     (@first $self:ident, $index:expr) => {{
         // NOTE: The conditions here then are that:
-        // - `index - 1` is not a digit after consuming digit separators
+        // - `index + 1` is not a digit after consuming digit separators
         //
         // # Logic
         //
-        // We also need to consider the case where it's empty,
-        // that is, the previous one wasn't a digit if we don't
-        // have a digit.
+        // No digit of this component has been read yet, so a separator
+        // run followed by a digit would be leading (not enabled here);
+        // it is only valid if the component has no digits at all.
 
-        let prev = indexing!(@prevc $self, $index);
         let next = indexing!(@nextc $self, $index);
         let slc = $self.byte.slc;
-        slc.get(prev).map_or(false, |&x| !$self.is_digit(x)) ||
-            slc.get(next).map_or(true, |&x| !$self.is_digit(x))
+        slc.get(next).map_or(true, |&x| !$self.is_digit(x))
     }};
 
     (@first $self:ident) => {
